@@ -70,6 +70,20 @@ Definition dec_iout (l : list Z) : option (option iout) :=
   | [2; r; run] => Some (Some (IEngine r (b run)))
   | _ => None end.
 
+(* black-box runs: frames the stub daemon received, as (type, payload) *)
+Fixpoint frames_of (fuel : nat) (l : list Z) : list (Z * list Z) :=
+  match fuel with O => [] | S f =>
+  match l with
+  | t :: len :: r => if (len <? 0) || (lenb r <? len) then [] else (t, firstn (Z.to_nat len) r) :: frames_of f (skipn (Z.to_nat len) r)
+  | _ => [] end end.
+Fixpoint abort_presses (fuel : nat) (evs : list Z) : nat :=
+  match fuel with O => O | S f =>
+  match evs with
+  | ty :: num :: v :: t => Nat.add (if (ty =? 1) && (num =? 1) && (v =? 1) then 1%nat else 0%nat) (abort_presses f t)
+  | _ => O end end.
+Definition is_stop_all (f : Z * list Z) : bool :=
+  (fst f =? type_motion) && match snd f with [0] => true | _ => false end.
+
 Definition c18_check (l o : list Z) : bool :=
   match l with
   | 1 :: _ =>
@@ -96,7 +110,10 @@ Definition c18_check (l o : list Z) : bool :=
   | 3 :: m :: full :: failsafe :: evs =>
       (* failsafe session unless told otherwise; only Motion / Engine frames; locked at start-up *)
       match o with
-      | fl :: n :: rest => (fl =? (if b failsafe then 16 else 0)) && (0 <=? n)
+      | fl :: n :: rest =>
+          (fl =? (if b failsafe then 16 else 0)) && (0 <=? n)
+          (* pressing Abort ALWAYS produces stop-all: at least one stop-all frame per Abort press reached the daemon *)
+          && Nat.leb (abort_presses (length evs) evs) (length (filter is_stop_all (frames_of (length rest) rest)))
       | _ => false end
   | _ => false end.
 
